@@ -24,8 +24,9 @@ pub fn code_hashes() -> [H32; 3] {
     [[0u8; 32], mid, [0xffu8; 32]]
 }
 
-/// valid `ScriptHashType` bytes used by the universe (data, type, data1)
-pub const HASH_TYPES: [u8; 3] = [0, 1, 2];
+/// valid `ScriptHashType` bytes used by the universe (data, type, data1; data2 is only drawn by
+/// the rich-indexer sub-checks: the generic selectors stay below 3)
+pub const HASH_TYPES: [u8; 4] = [0, 1, 2, 4];
 
 /// args of the universe: prefixes of one another, empty args, args made of 0x00 bytes, args that
 /// look like a big-endian block number
@@ -47,6 +48,12 @@ pub fn args_universe() -> Vec<Vec<u8>> {
         vec![0xab, 0xcd, 0, 0, 0, 0, 0, 0, 0, 2],
         vec![0xff],
         vec![0xff, 0xff],
+        // 16..: only drawn by the rich-indexer sub-checks (the generic selectors stay below 16):
+        // prefixes that end in 0xff, whose upper boundary needs a carry
+        vec![0x00, 0xff],
+        vec![0x00, 0xff, 0xff],
+        vec![0x00, 0xff, 0x00],
+        vec![0xab, 0xff],
     ]
 }
 
@@ -123,6 +130,9 @@ pub struct MEntry {
     pub is_output: bool,
     pub lock_raw: Vec<u8>,
     pub type_raw: Option<Vec<u8>>,
+    /// data and capacity of the cell (the rich-indexer filters transaction entries by them)
+    pub data: Vec<u8>,
+    pub capacity: u64,
 }
 
 /// chain state after some block of one branch
@@ -161,6 +171,8 @@ impl MState {
                             is_output: false,
                             lock_raw: c.lock_raw,
                             type_raw: c.type_raw,
+                            data: c.data,
+                            capacity: c.capacity,
                         }),
                         None => {
                             // the genesis block's dep-group transaction has a null input
@@ -183,6 +195,8 @@ impl MState {
                     is_output: true,
                     lock_raw: lock_raw.clone(),
                     type_raw: type_raw.clone(),
+                    data: d.to_vec(),
+                    capacity,
                 });
                 st.live.insert(
                     (txh, oi as u32),
@@ -336,14 +350,14 @@ pub fn script_hit(mode: u8, key: &[u8], script: Option<&Vec<u8>>, pos: &[u8]) ->
     Hit::No
 }
 
-fn in_range(r: &Option<(u64, u64)>, v: u64) -> bool {
+pub fn in_range(r: &Option<(u64, u64)>, v: u64) -> bool {
     match r {
         Some((a, b)) => *a <= v && v < *b,
         None => true,
     }
 }
 
-fn contains(hay: &[u8], needle: &[u8]) -> bool {
+pub fn contains(hay: &[u8], needle: &[u8]) -> bool {
     if needle.is_empty() {
         return true;
     }
